@@ -99,21 +99,22 @@ const (
 
 // kb builds one kernel.
 type kb struct {
-	arch  g.Arch
-	v5    bool
-	l     Launch
-	abi   ABI
-	p     *g.Program
-	nlab  int
-	lds   bool
-	oStr  int // bytes per work-item in OUT
-	iStr  int // bytes per work-item in IN
-	iShift int
-	rev    bool // compute the reversed-region address (xkernel chains)
+	arch     g.Arch
+	v5       bool
+	l        Launch
+	abi      ABI
+	p        *g.Program
+	nlab     int
+	lds      bool
+	oStr     int // bytes per work-item in OUT
+	iStr     int // bytes per work-item in IN
+	iShift   int
+	rev      bool // compute the reversed-region address (xkernel chains)
+	declVGPR int  // VGPRs per work-item the code object declares (>= nVGPR)
 	// ABI register numbers
 	rKA, rDisp, rWGX, rWGY, rWGZ, rCnt int
-	nMem int
-	feat map[string]bool
+	nMem                               int
+	feat                               map[string]bool
 }
 
 func pow2ceil(n int) int {
@@ -171,20 +172,20 @@ func (k *kb) vop3(op int, d, a, b, c g.Operand) {
 
 // opcode numbers used directly (identical in both tables unless noted)
 const (
-	opSAddU32 = 0
-	opSMulI32 = 36
-	opSMovB32 = 0 // SOP1
-	opSMovB64 = 1 // SOP1
-	opVMov    = 1 // VOP1
-	opVAddU32 = 25 // VOP2: v_add_u32 (GCN3, writes VCC) / v_add_co_u32 (CDNA3)
+	opSAddU32  = 0
+	opSMulI32  = 36
+	opSMovB32  = 0  // SOP1
+	opSMovB64  = 1  // SOP1
+	opVMov     = 1  // VOP1
+	opVAddU32  = 25 // VOP2: v_add_u32 (GCN3, writes VCC) / v_add_co_u32 (CDNA3)
 	opVAddcU32 = 28
-	opVAnd    = 19
-	opVXor    = 21
-	opVLshl   = 18
-	opVLshr   = 16
-	opVMadU24 = 451 // VOP3a
-	opVMulLo  = 645
-	opVBfeU32 = 456
+	opVAnd     = 19
+	opVXor     = 21
+	opVLshl    = 18
+	opVLshr    = 16
+	opVMadU24  = 451 // VOP3a
+	opVMulLo   = 645
+	opVBfeU32  = 456
 )
 
 // add64 emits v[d:d+1] = v[a:a+1] + c (c small constant), via VCC.
@@ -364,19 +365,23 @@ func (k *kb) codeObject() (*insts.KernelCodeObject, error) {
 	if err != nil {
 		return nil, err
 	}
+	decl := nVGPR
+	if k.declVGPR > decl {
+		decl = k.declVGPR
+	}
 	meta := &insts.KernelCodeObjectMeta{
-		ComputePgmRsrc1:              uint32(nVGPR/4-1) | uint32(nSGPR/8-1)<<6,
-		ComputePgmRsrc2:              1<<7 | 1<<8 | 1<<9 | 2<<11, // work-group id x,y,z; work-item id x,y,z
-		KernargSegmentByteSize:       64,
-		EnableSgprKernargSegmentPtr:  true,
-		EnableSgprDispatchPtr:        k.abi.DispatchPtr,
-		EnableSgprQueuePtr:           k.abi.QueuePtr,
-		EnableSgprPrivateSegmentSize: k.abi.PrivSegSize,
+		ComputePgmRsrc1:               uint32(decl/4-1)&0x3f | uint32(nSGPR/8-1)<<6,
+		ComputePgmRsrc2:               1<<7 | 1<<8 | 1<<9 | 2<<11, // work-group id x,y,z; work-item id x,y,z
+		KernargSegmentByteSize:        64,
+		EnableSgprKernargSegmentPtr:   true,
+		EnableSgprDispatchPtr:         k.abi.DispatchPtr,
+		EnableSgprQueuePtr:            k.abi.QueuePtr,
+		EnableSgprPrivateSegmentSize:  k.abi.PrivSegSize,
 		EnableSgprGridWorkgroupCountX: k.abi.WGCount,
 		EnableSgprGridWorkgroupCountY: k.abi.WGCount,
 		EnableSgprGridWorkgroupCountZ: k.abi.WGCount,
-		WFSgprCount:                  nSGPR,
-		WIVgprCount:                  nVGPR,
+		WFSgprCount:                   nSGPR,
+		WIVgprCount:                   uint16(decl),
 	}
 	if k.lds {
 		meta.GroupSegmentByteSize = uint32(pow2ceil(k.l.wgSize()) * ldsPer)
